@@ -20,6 +20,7 @@ package checks
 
 import (
 	"fmt"
+	"golang.org/x/sys/unix"
 	"net"
 	"os"
 	"runtime"
@@ -365,7 +366,9 @@ type c13Obj struct {
 	closed      int
 	owner       func() error // adapter: the net.Conn that owns the descriptor
 	ownerClosed bool
-	startRead   func() // adapter: start an AsyncRead that stays in flight (nothing is sent to it)
+	startRead   func()       // adapter: start an AsyncRead that stays in flight (nothing is sent to it)
+	use         func() error // timer: ScheduleOnce(1h) — offered after Close, when it must not reach any descriptor
+	used        bool
 }
 
 func c13Create(e *c13Env, kind string) *c13Obj {
@@ -396,6 +399,7 @@ func c13Create(e *c13Env, kind string) *c13Obj {
 			engine.HarnessError("NewTimer: %v", err)
 		}
 		o.close = t.Close
+		o.use = func() error { return t.ScheduleOnce(time.Hour, func() {}) }
 	case "peer":
 		p, err := multicast.NewUDPPeer(e.ioc, "udp", "127.0.0.1:0")
 		if err != nil {
@@ -511,6 +515,23 @@ func c13Close(x *engine.X) {
 			if o.owner != nil && !o.ownerClosed {
 				as = append(as, act{fmt.Sprintf("owner-close(%s#%d)", o.kind, i), func() { o.owner(); o.ownerClosed = true }})
 			}
+			// a closed timer is scheduled again (what the re-arming wrapper of a repeating timer does when its callback
+			// closed the timer): it owns no descriptor any more, so no timer of the scenario may end up armed by it
+			if o.use != nil && o.closed > 0 && !o.used {
+				as = append(as, act{fmt.Sprintf("schedule-after-close(%s#%d)", o.kind, i), func() {
+					o.used = true
+					err := o.use()
+					for j, q := range objs {
+						if q.kind != "timer" || q.closed > 0 {
+							continue
+						}
+						var cur unix.ItimerSpec
+						if gerr := unix.TimerfdGettime(q.fds[0], &cur); gerr == nil && (cur.Value.Sec != 0 || cur.Value.Nsec != 0) {
+							x.Fail("fd/timer.ScheduleOnce/after-close/arms-foreign-descriptor", "ScheduleOnce on the closed timer #%d returned %v and armed descriptor %d, which now belongs to the live timer #%d (history %v)", i, err, q.fds[0], j, trace)
+						}
+					}
+				}})
+			}
 		}
 		if len(objs) < 3 {
 			for _, k := range c13Kinds {
@@ -559,13 +580,15 @@ func trace0(trace []string) string {
 
 func c13Body(x *engine.X) {
 	c13Init()
-	switch x.Pick(4, "family") {
+	switch x.Pick(5, "family") {
 	case 0:
 		c13Fail(x)
 	case 1:
 		c13Close(x)
 	case 2:
 		c13GC(x)
+	case 4:
+		c13CloseInFlight(x)
 	default:
 		c18BodyOpt(x, true) // failed websocket handshakes, same census
 	}
@@ -582,7 +605,7 @@ func C13(tier string) *engine.Report {
 	d.Budget = 5 * time.Minute
 	tot.Add(d.Run(), rep)
 	tot.Fill(rep, "fail: every constructor x {descriptor exhaustion at allocation k=1..6, refused, unreachable/timeout, bind conflict, non-local address, failing option}, census before/after; "+
-		"close: all sequences (<=4 actions after the first object) of close (repeatable), owner-close and create over 8 object kinds with descriptor identity checks; gc: see coverage.gc; non-trivial = a fault was injected or an action taken", 2)
+		"close/in-flight: every object kind x {nothing, a read, a write, both} waiting in the poller x {IO open, IO closed first: every epoll_ctl fails} x Close once|twice, census after each; close: all sequences (<=4 actions after the first object) of close (repeatable), owner-close and create over 8 object kinds with descriptor identity checks; gc: see coverage.gc; non-trivial = a fault was injected or an action taken", 2)
 	rep.Assumptions = append(rep.Assumptions, "fstat identity (device, inode, type) distinguishes kernel objects", "weak pointers and runtime.GC() of go1.24 decide reachability (gc family)")
 	return rep
 }
